@@ -50,6 +50,15 @@ def explore(ck: Check, n_tables: int, slow_formats: bool) -> None:
                 while len(t) - 1 < need:
                     t.append(list(t[1 + k % 700]))
                     k += 1
+            # one table with a very long row: its variable-length EBCDIC copies carry a record of more than 32764 bytes
+            wide = i == 9
+            if wide:
+                if len(t[0]) < 2:      # (a spreadsheet cell holds at most 32767 characters: the long row is spread over several columns)
+                    t = gen_table(rng, fixed_safe=True, n_cols=rng.randint(2, 6), n_rows=rng.randint(0, 8))
+                while len(t) < 4:
+                    t.append([f"c{len(t)}{c}" for c in range(len(t[0]))])
+                per = 33000 // len(t[0]) + 1
+                t[2] = [(cell + "w" * per)[:per] for cell in t[2]]
             narrow = fixed and i % 6 == 0 and len(t) > 1
             if narrow:
                 for r in t[1:]:
@@ -57,7 +66,7 @@ def explore(ck: Check, n_tables: int, slow_formats: bool) -> None:
             second = gen_table(rng, n_rows=rng.randint(1, 3))
             inp = {"table": t if not big else t[:3] + [["...", f"{len(t) - 1} rows"]]}
             want = [("", t[0], t[1:])]
-            ck.case(str(t), feature="table/" + ("long" if big else "fixed-safe" if fixed else "free-text"))
+            ck.case(str(t), feature="table/" + ("long" if big else "wide-row" if wide else "fixed-safe" if fixed else "free-text"))
             results: dict[str, Any] = {}
 
             def run(label: str, fn) -> None:
@@ -78,7 +87,7 @@ def explore(ck: Check, n_tables: int, slow_formats: bool) -> None:
             p_x = tdp / f"{stem}.xlsx"
             write_xlsx(p_x, {"First": t, "Second": second})
             run("xlsx", lambda: observe_heading(open_workbook(p_x)))
-            if slow_formats or i % 8 == 0:
+            if (slow_formats or i % 8 == 0) and not wide:
                 p_o = tdp / f"t{i}.ods"
                 write_ods(p_o, {"First": t, "Second": second} if len(t) > 0 else {"First": t})
                 run("ods", lambda: observe_heading(open_workbook(p_o)))
@@ -107,10 +116,31 @@ def explore(ck: Check, n_tables: int, slow_formats: bool) -> None:
                 p_e = tdp / f"t{i}.ebc"
                 write_ebcdic(p_e, t, widths)
                 run("ebcdic", lambda: observe_with_schema(COBOL_EBCDIC_File(p_e, recfm_class=E.RECFM_F, lrecl=sum(widths)), cschema, t[0], strip=True))
+                # variable-length records (RECFM V: a length word before each; VB: blocks of them), same rows
+                from harness.c05 import write_v, write_vb
+                erecs = ["".join(c.ljust(w) for c, w in zip(row, widths)).encode("cp037") for row in t[1:]]
+                p_v = tdp / f"t{i}.v.ebc"
+                p_v.write_bytes(write_v(erecs))
+                run("ebcdic-recfm-v", lambda: observe_with_schema(COBOL_EBCDIC_File(p_v, recfm_class=E.RECFM_V, lrecl=1), cschema, t[0], strip=True))
+                p_vb = tdp / f"t{i}.vb.ebc"
+                p_vb.write_bytes(write_vb([erecs[k:k + 3] for k in range(0, len(erecs), 3)] if not wide else [[r] for r in erecs]))
+                if not wide:    # a block's own length word is 16 bits too: no block of more than 32760 bytes
+                    run("ebcdic-recfm-vb", lambda: observe_with_schema(COBOL_EBCDIC_File(p_vb, recfm_class=E.RECFM_VB, lrecl=1), cschema, t[0], strip=True))
+                # the copybook as a file with a further, unrelated 01 record after it, loaded the documented way (COBOLSchemaLoader.load:
+                # "the first 01 level record is returned")
+                p_c = tdp / f"t{i}.cpy"
+                p_c.write_text(copybook_for(t, widths) + "       01  TRAILER-REC.\n           05  TRAILER-COUNT PIC 9(7).\n           05  TRAILER-NOTE PIC X(3).\n")
+                try:
+                    from stingray.workbook import COBOLSchemaLoader
+                    lschema = SchemaMaker.from_json(COBOLSchemaLoader(p_c).load())
+                    run("fixed-text-loaded-copybook", lambda: observe_with_schema(COBOL_Text_File(p_f), lschema, t[0], strip=True))
+                except BaseException as ex:  # noqa: BLE001
+                    results["fixed-text-loaded-copybook"] = f"{err_enum(ex)}: {str(ex)[:80]}"
                 # fixed-length records WITHOUT an explicit lrecl: the record length comes from the copybook
                 run("ebcdic-recfm-f-no-lrecl", lambda: observe_with_schema(COBOL_EBCDIC_File(p_e, recfm_class=E.RECFM_F), cschema, t[0], strip=True))
                 # the default record reader (no RECFM given): the record length comes from the schema
-                run("ebcdic-default", lambda: observe_with_schema(COBOL_EBCDIC_File(p_e), cschema, t[0], strip=True))
+                if not wide:   # the default reader looks at no more than 32768 bytes at a time (the z/OS maximum record is 32760)
+                  run("ebcdic-default", lambda: observe_with_schema(COBOL_EBCDIC_File(p_e), cschema, t[0], strip=True))
             # ---- oracle: every format shows the table
             for label, got in results.items():
                 multi = label in ("xlsx", "ods", "numbers")
